@@ -432,12 +432,12 @@ Proof.
     destruct (trim_sides_shards _ (left + ww) right _ W2 C2) as (sr0 & -> & Wr & Cr & Ecr); [lia|lia|subst right; lia|].
     eexists; split; [reflexivity|]. right. split; [lia|]. exists sr0. repeat split; try assumption.
     rewrite Cr. f_equal. apply map_ext. intros R. unfold g_window. f_equal. subst right. lia. }
-  destruct (shards_rows (cshards c) =? 0) eqn:E0; [lia|].
+  destruct (HH =? 0) eqn:E0; [lia|].
   set (mid := map (fun p : row * row => g_window (fst p) 0 left ++ snd p ++ g_window (fst p) (left + ww) WW) (combine MM TT)).
   destruct (content_size _ _ Wt Ct) as [Rt _].
   destruct (content_size _ _ W2 C2) as [R2 _].
   assert (exists middle, (if negb (left =? 0) || negb (right =? 0) then shards_join (ls ++ [cshards o] ++ rs) else Ok (cshards o)) = Ok middle /\
-                         WF middle /\ shards_cols middle = WW /\ content middle = Ok mid) as (middle & -> & Wm & Ecm & Cm).
+                         WF middle /\ shards_cols middle = WW /\ content middle = Ok mid) as (middle & Em & Wm & Ecm & Cm).
   { destruct Hls as [[El ->]|(Hlp & sl0 & -> & Wl & Cl & Ecl)]; destruct Hrs as [[Er0 ->]|(Hrp & sr0 & -> & Wr & Cr & Ecr)].
     - (* the overlay spans the whole width *)
       replace (negb (left =? 0) || negb (right =? 0)) with false by lia. exists (cshards o). split; [reflexivity|].
@@ -469,6 +469,7 @@ Proof.
         * destruct (content_size _ _ Wr Cr) as [Rr _]. rewrite zlen_map in Rr. lia.
       + exists s. split; [reflexivity|]. split; [assumption|]. split; [rewrite Ecs; cbn [map sumz fold_right]; subst right; lia|].
         rewrite Cs. f_equal. cbn [g_hcat]. subst mid. now rewrite hcat2_map_lr by assumption. }
+  match goal with |- context [match ?X with Ok _ => _ | Err _ => _ end] => replace X with (@Ok shards middle) by (symmetry; exact Em) end.
   destruct (vcat_opt_bottom WW _ _ _ _ Wm Ecm Cm Obot) as (Wmb & Ecmb & Cmb).
   destruct (vcat_opt_top WW _ _ _ _ Otop Wmb Ecmb Cmb) as (Wall & _ & Call).
   eexists; split; [reflexivity|]. cbn [vrel cshards ccoords cfin gleaf gg gco gfin].
